@@ -121,8 +121,16 @@ func splitStringLines(pre, lit, post string) ([]string, []byte) {
 // (one run at a time per process).
 var c16Globals []string
 
+// c16BlockFns are functions bound inside earlier compound statements (their code and constants
+// were compiled as part of a statement that is long finished).
+var c16BlockFns []string
+
 func drawC16Stmt(tp *tape.Tape, idx int, r *core.Result, defined *[]string) c16Stmt {
 	gv := "g" + string(rune('a'+idx))
+	if len(c16BlockFns) > 0 && tp.Draw(6) == 0 {
+		fn := c16BlockFns[tp.Draw(len(c16BlockFns))]
+		return c16Stmt{[]string{fmt.Sprintf("%s(%d, %d) + %d", fn, tp.Draw(9), tp.Draw(5), 100+tp.Draw(900))}, []byte{'t'}, false, "call-of-block-defined-function"}
+	}
 	if len(c16Globals) > 0 && tp.Draw(6) == 0 {
 		// look again at a value an earlier statement bound (and, in the REPL, echoed)
 		g := c16Globals[tp.Draw(len(c16Globals))]
@@ -151,6 +159,7 @@ func drawC16Stmt(tp *tape.Tape, idx int, r *core.Result, defined *[]string) c16S
 		return c16Stmt{l, c, true, "string-value"}
 	case 11: // a block that defines and calls a function with parameters and locals (self-contained: -eval too)
 		fn := "h" + string(rune('a'+idx))
+		c16BlockFns = append(c16BlockFns, fn)
 		k := tp.Draw(9)
 		return c16Stmt{[]string{"{", fn + " = (n, o) -> {", "m = n * 2 + o", fmt.Sprintf("write(\"%s(\" + toa(m) + \")\")", fn), "m + 1", "}", fmt.Sprintf("%s(%d, %d)", fn, k, tp.Draw(5)), "}"},
 			[]byte{'b', 'b', 'b', 'b', 'b', 'b', 'b', 't'}, true, "block-def-and-call"}
@@ -243,6 +252,7 @@ func (C16) Run(tp *tape.Tape) core.Result {
 	var r core.Result
 	n := 1 + tp.Draw(8)
 	c16Globals = nil
+	c16BlockFns = nil
 	var defined []string
 	stmts := make([]c16Stmt, n)
 	key := core.NewHash()
